@@ -25,10 +25,10 @@ CHECKS = {
     "C14": dict(cat="model_checking", ref="§4 C14", tech="total TLA+ specification (every action defined for every argument, one expected panic) as oracle for recorded traces of an overflow-checked build over hostile corpora (timers incl. stalls of 13 500 readings) + native panic scan over 6000 (thorough 60 000) seeds per type, hits replayed and decided by Trace_Full",
                 text="All operations run under catch_unwind in the dev (overflow-checked) profile over hostile inputs (timer deltas around +-2^31, 2^32, 2^63, wrap-around, decreasing; extreme seeds; fill lengths 0..17, block size +-1); a recorded panic other than set_rounds(0) is a step the total specification cannot take.",
                 note=TB + "; absence of panics is established on the explored corpora, not for all inputs"),
-    "C15": dict(cat="model_checking", ref="§4 C15", tech="GF(2) rank / kernel-vector certificate computed by TLC (Gf2.tla) on the pool maps extracted from the code through the cfg(rngs_verif) hook; collisions replayed on the code",
+    "C15": dict(cat="model_checking", ref="§4 C15", tech="GF(2) rank / kernel-vector certificate computed by TLC (Gf2.tla) on the pool maps extracted from the code through the cfg(rngs_verif) hook; collisions replayed on the code; six maps incl. the variable-round fold path and one whole collection (next_u64); a non-affine map is decided only by a concrete collision confirmed on the code",
                 text="The three pool maps (LFSR fold in the pool for fixed time, in the time for fixed pool, stir) are recorded from the real code on a complete basis plus random triples; TLC checks affinity on the triples and rank 64 of each linear part, which decides bijectivity for all 2^64 values; a rank deficiency is reported only together with a collision reproduced on the real code.",
                 note=TB + "; affinity of the code's maps is sampled; a non-affine map is reported as undecided (C12 rejects it)"),
-    "C16": dict(cat="model_checking", ref="§4 C16", tech="TLC exhaustive model checking of the hand-out machine JitterApi (tokens, <=3 instances, clone of clone, clone_from) with invariants AtMostOnce / PendingIsHighHalfOfOwnValue / FreshOrPendingHalf and a negative control; transition cover replayed on real JitterRng instances; Trace_Jitter executes the same plans on concrete pools",
+    "C16": dict(cat="model_checking", ref="§4 C16", tech="TLC exhaustive model checking of the hand-out machine JitterApi (tokens, <=3 instances, clone of clone, clone_from) with invariants AtMostOnce / PendingIsHighHalfOfOwnValue / FreshOrPendingHalf and a negative control; (thorough) Apalache proves an inductive invariant implying AtMostOnce / PendingIsHighHalfOfOwnValue for an unbounded number of collections; transition cover replayed on real JitterRng instances; Trace_Jitter executes the same plans on concrete pools",
                 text="All interleavings of next_u32/next_u64/fill_bytes/clone over up to three instances are explored on the abstract machine; the plans it uses are the ones the trace specification executes on concrete state, so every edge replayed on real JitterRng objects is validated for value, flag and readings consumed.",
                 note=TB + "; round counts 1,2,3 (quick) and 64,255 (thorough); fill_bytes(1..4) with a half pending is left open (C05 vs C16 wording)"),
     "C02": dict(cat="model_checking", ref="§4 C02", tech="TLA+ HC-128 in paper form (Hc128.tla) evaluated by TLC on recorded Hc128Rng traces (trace validation)",
